@@ -384,12 +384,42 @@ class Sim:
             r = self.B.image(f, g, {xp: x}, {x}, self.b)
         self.keep(r, want)
 
-    OPS = dict(fork=op_fork, copyout=op_copy_out, image=op_image, var=op_var, build=op_build, apply=op_apply, ite=op_ite, quant=op_quant, let=op_let, expr=op_expr,
+    def op_json(self):
+        """dump a few held functions to a JSON file and load them back into the same manager (dd.autoref): the loaded handles denote the
+        same functions and the ledger stays exact (the nodes of the file already exist and are already referenced)"""
+        if self.mode != 'autoref':
+            return self.op_var()
+        import os
+        import shutil
+        import tempfile
+        ks = self.rnd.sample(list(self.held), min(len(self.held), self.rnd.randint(1, 3)))
+        fs = [self.held[k] for k in ks]
+        self.log.append(('dump + load json', [self.node(f) for f, _ in fs]))
+        td = tempfile.mkdtemp(prefix='verif_hist_')
+        cwd = os.getcwd()
+        os.chdir(td)      # the JSON loader keeps its scratch files in a fixed directory below the current one
+        try:
+            fn = os.path.join(td, 'h.json')
+            if self.rnd.random() < .5:
+                self.m.dump(fn, [f for f, _ in fs])
+                back = self.m.load(fn)
+            else:
+                self.m.dump(fn, {f'r{i}': f for i, (f, _) in enumerate(fs)})
+                d = self.m.load(fn)
+                back = [d[f'r{i}'] for i in range(len(fs))]
+        finally:
+            os.chdir(cwd)
+            shutil.rmtree(td, ignore_errors=True)
+        require(len(back) == len(fs), 'json-load#post:same-positions', lambda: f'{back}')
+        for g, (_, t) in zip(back, fs):
+            self.keep(g, t)
+
+    OPS = dict(json=op_json, fork=op_fork, copyout=op_copy_out, image=op_image, var=op_var, build=op_build, apply=op_apply, ite=op_ite, quant=op_quant, let=op_let, expr=op_expr,
                succ=op_succ, copyh=op_copyh, drop=op_drop, gc=op_gc, gcroots=op_gc_roots, swap=op_swap,
                sift=op_sift, order=op_order, pairs=op_pairs, declare=op_declare, undeclare=op_undeclare)
 
     def step(self, op):
-        needs_held = op in ('apply', 'ite', 'quant', 'let', 'succ', 'copyh', 'copyout', 'image')
+        needs_held = op in ('apply', 'ite', 'quant', 'let', 'succ', 'copyh', 'copyout', 'image', 'json')
         if needs_held and not self.held:
             op = 'var'
         if op in ('var', 'build', 'expr', 'let', 'quant') and not self.declared():
